@@ -1302,6 +1302,11 @@ Lemma refuted_pre_fix_proof :
   exists r, run w_kink w_cfg w_st0 emt_reset [w_seg] = EOk r /\ map r_frame (concat (snd r)) = [6].
 Proof. split; [vm_compute; reflexivity|]. eexists. split; vm_compute; reflexivity. Qed.
 
+(* TriggerData with EdgeMulti set is the edge-multi pass alone, whatever the other flags *)
+Lemma trigger_data_exclusive kink clamp c o s st :
+  trigger_data_gen kink clamp c true o s st = emap Some (compute_append_gen kink clamp c s st).
+Proof. unfold trigger_data_gen. destruct (compute_append_gen kink clamp c s st); reflexivity. Qed.
+
 (* ---------- argument order of Properties.v ---------- *)
 Lemma emt_block_independent_thm :
   forall (kink : list Z -> Z) (c : cfg) (st0 : stream) (segsA segsB : list segment),
